@@ -7,6 +7,16 @@ Correspondence: real soup client / soup server / FIX sessions under the virtual-
 Oracle (implementation only), with the interval of the *peer's role* and n = 1 for sessions:
 (a) no byte in (p, p+(n+1)P] => closed by p+(n+1)P;  (b) closed for inactivity => some window of length P without a byte;
 arrival kinds (heartbeat / other message / fragment of a frame) are not distinguished by the oracle.
+
+Hold-ups (`block:<d>` events, see monitor_common): "whatever else it is doing" includes a handler that blocks the event loop.
+While the loop is blocked nothing can be handed to the session, so the notion of "the peer delivers a byte" used by (b) is the
+instant the bytes **reach the socket** (the stamp of the `recv:*` event); bytes that arrive during a hold-up are handed to
+`data_received` when it ends, before the late timers of that loop iteration run (asyncio processes selector events before due
+timers).  (b) is evaluated on those stamps, unchanged: a peer with a byte in every window of P is never dropped, for every length
+and phase of the hold-up.  (a) cannot hold to the letter while the loop is blocked (no code runs): its deadline is extended by the
+total length of the hold-ups that overlap the window (each hold-up delays a check by at most its own length).
+Model side: Model/MonitorLate.lean (`hbl.run`), theorems in Props/C09Late.lean (every check window is at least one interval long
+because the next sleep starts when the late check ran).
 """
 import itertools
 import json
@@ -15,7 +25,7 @@ import monitor_common as mc
 from monitor_common import peer_interval, describe
 
 DRIVER = 'drv_C08'
-LEAN_TARGETS = ['NasdaqModel.Props.C09', 'drv_C08']
+LEAN_TARGETS = ['NasdaqModel.Props.C09', 'NasdaqModel.Props.C09Late', 'drv_C08']
 KNOWN_LOCAL = [k for k in mc.KNOWN_LOCAL if k['property'] == 'C09']
 
 
@@ -32,6 +42,16 @@ def silent_window_exists(recvs, P, end):
     return any(b - a > P and a + P < end for a, b in zip(pts, pts[1:]))
 
 
+def deadline(p, bound, blocks):
+    """p + bound, extended by the hold-ups that overlap (p, deadline]: while the loop is blocked no check can run"""
+    dl = p + bound
+    while True:
+        ext = p + bound + sum(e - b for b, e in blocks if b < dl and e > p)
+        if ext == dl:
+            return dl
+        dl = ext
+
+
 def oracle(case, obs, interval=None, n=1):
     P = interval if interval is not None else peer_interval(case)
     if 'error' in obs:
@@ -45,20 +65,25 @@ def oracle(case, obs, interval=None, n=1):
     if closed and not isinstance(c, int):
         return fails + ['is_closed() is true but transport.close() was never called (or off the grid)']
     recvs = sorted(t for t, ev in case['events'] if ev.startswith('recv'))
+    blocks = mc.blocks_of(case)
     bound = (max(n, 1) + 1) * P
     # (a) silence => closed in bounded time
     for p in [0] + recvs:
         if c is not None and p >= c:
             break
         nxt = min([r for r in recvs if r > p], default=None)
-        if (nxt is None or nxt > p + bound) and p + bound <= H:
-            if c is None or c > p + bound:
-                fails.append(f'no byte from the peer in ({p}, {p + bound}] (peer interval {P}) but the session was '
-                             + ('never closed' if c is None else f'closed only at {c}'))
+        dl = deadline(p, bound, blocks)
+        if (nxt is None or nxt > dl) and dl <= H:
+            if c is None or c > dl:
+                fails.append(f'no byte from the peer in ({p}, {dl}] (peer interval {P}'
+                             + (f', event loop held up during {[list(b) for b in blocks if b[0] < dl and b[1] > p]}' if dl > p + bound else '')
+                             + ') but the session was ' + ('never closed' if c is None else f'closed only at {c}'))
                 break
     # (b) live peer never dropped
     if closed and closed[1] == 'mon' and not silent_window_exists([r for r in recvs if r < c], P, c):
-        fails.append(f'closed for inactivity at {c} although every window of {P} (peer interval) up to then contains a byte from the peer')
+        fails.append(f'closed for inactivity at {c} although every window of {P} (peer interval) up to then contains a byte from the peer'
+                     + (f' (event loop held up during {[list(b) for b in blocks if b[0] < c]}; bytes that arrived meanwhile were handed over '
+                        'when each hold-up ended, before the late timers ran)' if any(b[0] < c for b in blocks) else ''))
     return fails
 
 
@@ -75,7 +100,8 @@ def monitor_oracle(m, obs):
     if 'error' in obs:
         return [f"the monitor raised {obs['error']}"]
     I, n = m['interval'], max(m['tol'], 1)
-    pings = sorted(t for t, _ in m['events'])
+    pings = sorted(t for t, ev in m['events'] if ev == 'ping')
+    blocks = mc.blocks_of(m)
     trips = obs['trips']
     fails = []
     if any(t is None for t in trips):
@@ -85,9 +111,10 @@ def monitor_oracle(m, obs):
         if first is not None and p >= first:
             break
         nxt = min([r for r in pings if r > p], default=None)
-        if (nxt is None or nxt > p + (n + 1) * I) and p + (n + 1) * I <= m['horizon']:
-            if first is None or first > p + (n + 1) * I:
-                fails.append(f'no ping in ({p}, {p + (n + 1) * I}] (interval {I}, tolerance {m["tol"]}) but first trip {first}')
+        dl = deadline(p, (n + 1) * I, blocks)
+        if (nxt is None or nxt > dl) and dl <= m['horizon']:
+            if first is None or first > dl:
+                fails.append(f'no ping in ({p}, {dl}] (interval {I}, tolerance {m["tol"]}, hold-ups {[list(b) for b in blocks]}) but first trip {first}')
                 break
     if first is not None and not silent_window_exists([r for r in pings if r < first], I, first):
         fails.append(f'tripped at {first} although every window of {I} contains a ping')
@@ -156,6 +183,32 @@ def random_case(rng, thorough):
     return {'role': role, 'ci': ci, 'si': si, 'events': mc.merge(ev), 'horizon': H}
 
 
+def hold_cases(role, P, far):
+    """a peer that is live by the letter — one byte per period p <= P at every phase — x one hold-up of the event loop at every phase
+    relative to the checks and every (odd) length from a fraction of an interval to more than two intervals.  Never to be dropped."""
+    out = []
+    for p in (P - 2, P):
+        for phase in mc.odd_points(0, p):
+            for b in mc.odd_points(P, 2 * P):
+                for d in range(1, 2 * P + 6, 2):
+                    H = b + d + 3 * P + 1
+                    ev = mc.merge(mc.feed(p, H, 'recv:hb', start=phase), [[b, f'block:{d}']])
+                    ci, si = (P, P) if role == 'soupServer' else (far, P)
+                    out.append(mc.sanitize({'role': role, 'ci': ci, 'si': si, 'events': ev, 'horizon': H}))
+    return out
+
+
+def add_blocks(rng, case, P):
+    """one to three hold-ups at random odd instants, odd lengths from 1 to a few intervals"""
+    H = case['horizon']
+    odd = mc.odd_points(0, H)
+    ev = list(case['events'])
+    for _ in range(rng.choice([1, 1, 2, 3])):
+        d = rng.choice([1, 3, P - 1, P + 1, P + 3, 2 * P - 1, 2 * P + 1, 2 * P + 3, 3 * P + 1, rng.randrange(1, 4 * P) | 1])
+        ev.append([rng.choice(odd), f'block:{d}'])
+    return mc.sanitize(dict(case, events=mc.merge(ev)))
+
+
 def unequal_server_cases(rng, n):
     out = []
     for i in range(n):
@@ -184,7 +237,21 @@ def random_monitor(rng):
         pings = rng.sample(odd, min(len(odd), rng.randrange(0, 7)))
     else:
         pings = [k * I + rng.choice([-1, 1]) for k in range(1, H // I + 1) if rng.random() < 0.6]
-    return {'interval': I, 'tol': tol, 'stop': rng.random() < 0.6, 'events': [[t, 'ping'] for t in sorted(set(pings)) if 0 < t < H], 'horizon': H}
+    m = {'interval': I, 'tol': tol, 'stop': rng.random() < 0.6, 'events': [[t, 'ping'] for t in sorted(set(pings)) if 0 < t < H], 'horizon': H}
+    if rng.random() < 0.3:               # the event loop is held up once or twice (oracle only)
+        ev = list(m['events'])
+        for _ in range(rng.choice([1, 1, 2])):
+            ev.append([rng.choice(odd), f"block:{rng.choice([1, 3, I - 1, I + 1, 2 * I - 1, 2 * I + 1, 3 * I + 1])}"])
+        end, out = -1, []
+        for t, e in mc.merge(ev):
+            if e.startswith('block:'):
+                if t <= end:
+                    continue
+                end = t + int(e[6:])
+            out.append([t, e])
+        m['events'] = out
+        m['horizon'] = max(H, end + 1)
+    return m
 
 
 # ------------------------------------------------------------------ one case
@@ -222,14 +289,21 @@ def check_case(ctx, case, model_line, tag):
         if 'error' in ci or 'error' in cm or ci['closed'] != cm['closed']:
             ctx.disagree(f"hb.run {describe(case)[:150]}: implementation closed={json.dumps(ci.get('closed', ci))} vs model closed={json.dumps(cm.get('closed', cm))}",
                          dict(case, kind='correspondence'))
+        elif mc.blocks_of(case):
+            # schedules with hold-ups exist only here: compare the writes as well (late heartbeats of the local monitor), as C08 does
+            upto = mc.life(ci, case)
+            wi, wm = [w for w in ci['writes'] if w[0] < upto], [w for w in cm['writes'] if w[0] < upto]
+            if wi != wm:
+                ctx.disagree(f"hbl.run {describe(case)[:150]}: implementation writes {json.dumps(wi)[:300]} vs model {json.dumps(wm)[:300]}",
+                             dict(case, kind='correspondence'))
     return obs
 
 
 def check_monitor(ctx, m, model_line):
     obs = mc.impl_monitor(m)
-    ctx.case(f"monitor I={m['interval']} tol={m['tol']} stop={m['stop']} H={m['horizon']} pings={[t for t, _ in m['events']][:30]}",
+    ctx.case(f"monitor I={m['interval']} tol={m['tol']} stop={m['stop']} H={m['horizon']} events={[(t, e) if e != 'ping' else t for t, e in m['events']][:30]}",
              nontrivial=True, sample_every=97)
-    ctx.count(f"monitor:tol{m['tol']}:{'stop' if m['stop'] else 'keep'}")
+    ctx.count(f"monitor:tol{m['tol']}:{'stop' if m['stop'] else 'keep'}" + (':held-up' if mc.blocks_of(m) else ''))
     fails = monitor_oracle(m, obs)
     if fails:
         ctx.violation(f"HeartbeatMonitor(interval {m['interval']}, tolerance {m['tol']}): {fails[0]}", dict(m, kind='monitor', property='C09', observed=obs))
@@ -246,7 +320,12 @@ def run(ctx):
     ctx.cov['rule'] = ('arrival schedules on a grid of P/8 (ticks on even instants, arrivals on odd ones): exhaustive up to '
                        f"{3 if thorough else 2} arrivals over four peer intervals x 3 session kinds, then random schedules (periodic around the interval, "
                        'tick-hugging, gap in a lively stream, isolated, one per period; heartbeat / message / fragment arrivals; concurrent sends; '
-                       'application close), unequal intervals; bare monitors with tolerance 0..3; distinct = distinct case')
+                       'application close), unequal intervals; hold-ups of the event loop (a handler that blocks for d units, bytes arriving meanwhile '
+                       'handed over when it ends, before the late timers): a peer with one byte per period p in {P-2, P} at every phase x hold-up at '
+                       'every phase x every odd length up to 2P+5, and 1..3 random hold-ups in 30% of the random schedules; '
+                       'bare monitors with tolerance 0..3 (30% with hold-ups, oracle only); distinct = distinct case')
+    ctx.notes.append('a hold-up is a synchronous jump of the virtual clock inside a callback; "the peer delivers a byte" is then the instant the bytes '
+                     'reach the socket, handed to data_received when the hold-up ends (before the late timers, as in BaseEventLoop._run_once)')
     ctx.notes.append('ties between a monitor tick and an arrival are excluded from generated schedules; heartbeats written at the '
                      'instant the remote monitor closes the session are not compared (timer-heap order of equal floats)')
     cases = []
@@ -261,18 +340,30 @@ def run(ctx):
                 cases.append(('exhaustive', c))
     for c in unequal_server_cases(rng, 30 if thorough else 8):
         cases.append(('server-unequal', c))
+    for role in mc.ROLES:
+        for c in hold_cases(role, 8, 400):
+            cases.append(('hold', c))
+        if thorough:
+            for c in hold_cases(role, 4, 402) + hold_cases(role, 12, 404):
+                cases.append(('hold', c))
     for _ in range(16000 if thorough else 1300):
-        cases.append(('random', random_case(rng, thorough)))
+        c = random_case(rng, thorough)
+        if rng.random() < 0.3:
+            cases.append(('random-hold', add_blocks(rng, c, mc.peer_interval(c))))
+        else:
+            cases.append(('random', c))
     mons = [random_monitor(rng) for _ in range(6000 if thorough else 600)]
     for tag, c in cases:
         if tag != 'corpus':
             mc.vary_sends(rng, c)
-    lines = [mc.model_request(c) for _, c in cases] + [mc.monitor_request(m) for m in mons]
+    mreqs = [mc.monitor_request(m) for m in mons]
+    lines = [mc.model_request(c) for _, c in cases] + [r for r in mreqs if r is not None]
     ans = ctx.driver.ask(lines) if ctx.driver.available else [None] * len(lines)
     for (tag, c), a in zip(cases, ans):
         check_case(ctx, c, a, tag)
-    for m, a in zip(mons, ans[len(cases):]):
-        check_monitor(ctx, m, a)
+    mans = iter(ans[len(cases):])
+    for m, r in zip(mons, mreqs):
+        check_monitor(ctx, m, next(mans) if r is not None else None)
 
 
 def replay(ctx, path):
@@ -289,7 +380,8 @@ def replay(ctx, path):
         print('oracle        :', oracle(case, obs) or 'holds')
     else:
         m = {k: rep[k] for k in ('interval', 'tol', 'stop', 'events', 'horizon')}
-        line = ctx.driver.ask([mc.monitor_request(m)])[0] if ctx.driver.available else None
+        req = mc.monitor_request(m)
+        line = ctx.driver.ask([req])[0] if (ctx.driver.available and req is not None) else None
         obs = check_monitor(ctx, m, line)
         print('monitor       :', m)
         print('implementation:', obs)
